@@ -7,7 +7,8 @@ def make_cmds(rnd, kind, S, params, tier):
     opt = rnd.choice([1, 2, 3]) if kind in D.LOADOPT_KINDS else 1
     cmds, names = DC.std_phase_cmds(S, kind, params, phases, loadopt=opt)
     n = len(S)
-    ids = list(range(1, n + 1)) if n <= 40 else sorted(rnd.sample(range(1, n + 1), 40) + [1, n])
+    permuted = kind in D.HASH_KINDS or kind == "XBW"     # their ID -> string table must be complete
+    ids = list(range(1, n + 1)) if (n <= 40 or permuted) else sorted(rnd.sample(range(1, n + 1), 40) + [1, n])
     mem = S if n <= 40 else [S[i - 1] for i in ids]
     if kind == "PFC":
         cmds.append("pfc_dump d")
@@ -20,10 +21,10 @@ def make_cmds(rnd, kind, S, params, tier):
     return cmds, names, {"loadopt": opt}
 
 
-from props import gen_iters, gen_hash
+from props import gen_iters, gen_hash, gen_hashdict, gen_rpfc
 from props.subgen import Sub
-CFG = DC.Config("C01", D.ALL_KINDS, make_cmds, nsets=(9, 60), big=True,
-                components=[gen_hash, Sub(gen_iters, ["bsbi_samples", "bsbi_index", "blocks"])],
+CFG = DC.Config("C01", D.ALL_KINDS, make_cmds, nsets=(9, 24), big=True,
+                components=[gen_hash, gen_hashdict, gen_rpfc, Sub(gen_iters, ["bsbi_samples", "bsbi_index", "blocks"])],
                 rule="all 13 kinds x boundary-directed string sets (n around multiples of the bucket sizes, ladders of proper "
                      "prefixes, shared prefixes and lengths >= 128, single characters, repetitive and dominant-symbol text) x "
                      "build parameters x {fresh, reloaded via generic loader, own loader (thorough)}; every ID 1..n extracted "
